@@ -327,24 +327,24 @@ impl<E: Effect, R: CommandReceiver<E>, S: EventSender<E>> Worker<E, R, S> {
                 captures,
                 argument,
             } => {
-                // Extract heap data from all captures and argument
-                let mut all_heap_data = Vec::new();
-                let mut extracted_captures = Vec::new();
-
-                for capture in captures {
-                    let (extracted, mut heap) = self
-                        .executor
-                        .extract_heap_data(&capture)
-                        .map_err(|e| EnvironmentError::HeapData(format!("{:?}", e)))?;
-                    extracted_captures.push(extracted);
-                    all_heap_data.append(&mut heap);
-                }
-
-                let (extracted_argument, mut arg_heap) = self
+                // Extract heap data from all captures and the argument together, so that they
+                // share one heap index space (extracting each value on its own numbers every
+                // value's binaries from 0, and the concatenated heaps then alias each other).
+                let captures_count = captures.len();
+                let mut values = captures;
+                values.push(argument);
+                let (extracted, all_heap_data) = self
                     .executor
-                    .extract_heap_data(&argument)
+                    .extract_heap_data(&Value::tuple(quiver_core::types::NIL, values))
                     .map_err(|e| EnvironmentError::HeapData(format!("{:?}", e)))?;
-                all_heap_data.append(&mut arg_heap);
+                let Value::Tuple(_, extracted) = extracted else {
+                    unreachable!("extracting a tuple yields a tuple")
+                };
+                let mut extracted_captures = (*extracted).clone();
+                let extracted_argument = extracted_captures
+                    .pop()
+                    .expect("the argument was appended above");
+                debug_assert_eq!(extracted_captures.len(), captures_count);
 
                 self.sender.send(Event::SpawnAction {
                     caller,
